@@ -143,9 +143,9 @@ func (h *lifeH) download() int {
 			bits[i/8] |= 0x80 >> uint(i%8)
 		}
 		_ = vp.Send(5, bits)
-		v.PumpEx(time.Second, torrent.ClsMsg)
+		v.PumpEx(10*time.Second, torrent.ClsMsg)
 		_ = vp.Send(1, nil)
-		v.PumpEx(time.Second, torrent.ClsMsg)
+		v.PumpEx(10*time.Second, torrent.ClsMsg)
 	}
 	before := v.Snapshot()
 	for step := 0; step < 12; step++ {
@@ -165,12 +165,12 @@ func (h *lifeH) download() int {
 				return -1
 			}
 			sent = true
-			e := v.PumpEx(time.Second, torrent.ClsPiece)
+			e := v.PumpEx(10*time.Second, torrent.ClsPiece)
 			if e.Code == torrent.EvNone {
 				return -1
 			}
 			if v.WriteInFlight() {
-				e := v.PumpEx(3*time.Second, torrent.ClsWrite)
+				e := v.PumpEx(10*time.Second, torrent.ClsWrite)
 				if e.Code == torrent.EvNone {
 					return -1
 				}
@@ -292,7 +292,7 @@ func genLife(r *rand.Rand, tier string) Case {
 			default:
 				continue
 			}
-			e := v.PumpEx(2*time.Second, cls)
+			e := v.PumpEx(10*time.Second, cls)
 			switch e.Code {
 			case torrent.EvAllocDone:
 				fex, pok := h.disk()
@@ -374,6 +374,9 @@ func genLife(r *rand.Rand, tier string) Case {
 	note := ""
 	for k, n := range h.note {
 		note += fmt.Sprintf("%s=%d ", k, n)
+	}
+	if v.BarrierTimeouts > 0 {
+		note += fmt.Sprintf(" barriertimeout=%d", v.BarrierTimeouts)
 	}
 	return Case{In: h.in, Obs: h.obs, Note: note}
 }
